@@ -11,7 +11,7 @@ PROP = "C05"
 # key -> (type, expression)
 KEYS = {
     "name": "str", "path": "str", "ext": "str",
-    "size": "num", "uid": "num", "gid": "num", "hardlinks": "num", "inode": "num", "blocks": "num", "line_count": "num", "length(name)": "num", "size + 1": "num", "size*2": "num",
+    "size": "num", "uid": "num", "gid": "num", "hardlinks": "num", "inode": "num", "blocks": "num", "line_count": "num", "length(name)": "num", "size + 1": "num", "size*2": "num", "contains('ab')": "str",
     "modified": "date", "created": "date",
     "day(modified)": "num", "month(modified)": "num", "year(modified)": "num",
 }
